@@ -163,11 +163,15 @@ impl WordSplitter {
     where
         'b: 'a,
     {
+        #[cfg(feature = "verif-hooks")]
+        crate::verif::yield_point(7);
         WordSplitIterator::new(word, self.engine.leftmost_find_iter(word))
     }
 
     // is the word splittable in at least 2 parts
     pub fn is_splittable(&self, word: &str) -> bool {
+        #[cfg(feature = "verif-hooks")]
+        crate::verif::yield_point(6);
         let mut matches = self.engine.leftmost_find_iter(word);
         matches
             .next()
